@@ -195,7 +195,19 @@ class Run:
                 rec['on'] = victim
                 rec['down'] = round(rng.choice([rng.uniform(0.2, 4.0), rng.uniform(4.0, 15.0), rng.uniform(15, 40)]), 2)
                 w.crash_instance(victim)
-                w.at(w.now + rec['down'], w.start_instance, victim)
+                spec = w.spec_of(victim)
+                if self.knobs.get('host_reboot_p') and rng.random() < self.knobs['host_reboot_p'] and \
+                        sum(1 for s in w.specs if s['node'] == spec['node']) == 1:
+                    # the whole host reboots (the instance is alone on its node): its monotonic clock starts again
+                    # near zero when the instance comes back
+                    def reboot(victim=victim, spec=spec):
+                        spec['mono_off'] = round(-(w.now - 1_700_000_000.0) + rng.uniform(5.0, 90.0), 3)
+                        w.start_instance(victim)
+                    w.at(w.now + rec['down'], reboot)
+                    rec['host_reboot'] = True
+                    self.count('host_reboots')
+                else:
+                    w.at(w.now + rec['down'], w.start_instance, victim)
                 self.reboot_until = max(getattr(self, 'reboot_until', 0.0), w.now + rec['down'])
         elif kind == 'disable_during_join':
             # an instance Y restarts; while it still has a peer X in CHECKED (handshake done, not activated yet) and X
